@@ -336,3 +336,79 @@ def _inside_node(node, anc):
             return True
         n = getattr(n, "_parent", None)
     return False
+
+
+def unroll_literal_loops(fn, limit=8):
+    """A copy of ``fn`` in which every ``for v in (e1, ..., en)`` over a tuple
+    / list display of at most ``limit`` elements is replaced by n copies of
+    its body, each preceded by ``v = ei`` (same meaning: the elements are
+    evaluated at the same points).  Loops with break / else, or with
+    ``continue`` anywhere but as the whole body of an ``if`` directly in the
+    loop body, are left alone.  Returns (copy, number of loops unrolled)."""
+    import copy
+    new = copy.deepcopy(fn)
+    count = [0]
+
+    def no_continue(body):
+        """if c: continue; rest  ->  if not c: rest (None if not possible)"""
+        out = []
+        for i, st in enumerate(body):
+            if isinstance(st, ast.If) and len(st.body) == 1 and \
+                    isinstance(st.body[0], ast.Continue) and not st.orelse:
+                rest = no_continue(body[i + 1:])
+                if rest is None:
+                    return None
+                if rest:
+                    out.append(ast.copy_location(ast.If(
+                        test=ast.copy_location(ast.UnaryOp(
+                            op=ast.Not(), operand=st.test), st.test),
+                        body=rest, orelse=[]), st))
+                return out
+            if any(isinstance(x, ast.Continue) for x in ast.walk(st)
+                   if not isinstance(x, (ast.For, ast.While)) or x is st):
+                # a continue somewhere deeper (not inside a nested loop)
+                inner = [x for x in ast.walk(st)
+                         if isinstance(x, ast.Continue)]
+                nested = [x for l_ in ast.walk(st)
+                          if isinstance(l_, (ast.For, ast.While))
+                          for x in ast.walk(l_)
+                          if isinstance(x, ast.Continue)]
+                if any(x not in nested for x in inner):
+                    return None
+            out.append(st)
+        return out
+
+    class V(ast.NodeTransformer):
+        def visit_For(self, node):
+            self.generic_visit(node)
+            if node.orelse or not isinstance(node.iter, (ast.Tuple,
+                                                         ast.List)) or \
+                    len(node.iter.elts) > limit or any(
+                        isinstance(e, ast.Starred) for e in node.iter.elts):
+                return node
+            for x in ast.walk(node):
+                if isinstance(x, ast.Break):
+                    owner = x
+                    # a break of a nested loop is fine
+                    p = getattr(x, "_parent", None)
+                    return node
+            body = no_continue(node.body)
+            if body is None:
+                return node
+            out = []
+            for e in node.iter.elts:
+                out.append(ast.copy_location(ast.Assign(
+                    targets=[copy.deepcopy(node.target)], value=e), node))
+                out.extend(copy.deepcopy(body))
+            count[0] += 1
+            return out or [ast.copy_location(ast.Pass(), node)]
+    new = V().visit(new)
+    ast.fix_missing_locations(new)
+    for n in ast.walk(new):
+        for c in ast.iter_child_nodes(n):
+            c._parent = n
+    new._parent = getattr(fn, "_parent", None)
+    for a_ in ("_module", "_qualname"):
+        if hasattr(fn, a_):
+            setattr(new, a_, getattr(fn, a_))
+    return new, count[0]
